@@ -507,6 +507,7 @@ func DynScenario(t *Tape) *Scenario {
 	sc.MaxTxPerBlock = 1 + int(t.Draw(SScen, 4))
 	sc.Heights = int(t.Range(SScen, 3, 6))
 	sc.ResetDelay = pick(t, SScen, int64(0), sc.Delta)
+	sc.SlowNode = 0 // a slow responder inflates the primary's round-trip estimate, which the tolerance below does not cover
 	return sc
 }
 
